@@ -1,4 +1,229 @@
-(* C02 — statements are being added; see DESIGN.md section 7. *)
-From XSG.Model Require Import Strings.
-Example C02_placeholder : True. Proof. exact I. Qed.
-Print Assumptions C02_placeholder.
+(* C02 — the structs rendered with the quick-xml preset deserialize their source documents.
+   "... the Rust source rendered with the quick-xml preset compiles unchanged and
+    quick_xml::de::from_str into the first rendered struct succeeds for each of the documents the
+    structure was inferred from.  It still succeeds when every struct additionally denies unknown
+    fields, and the deserialized value holds every attribute value and every text content of the
+    document (unescaped, ignoring surrounding whitespace)."
+   "Compiles unchanged" is C04 (the output is well-formed Rust with unique legal names) plus the
+   compile batches of bin/check.  This file is the deserialization half, on the model of
+   quick_xml::de in Model/Deser.v (`de_doc qx_flavour`; a model of external code, validated on
+   every run of the checks by running the real deserializer on every generated program, on the
+   source documents and on damaged copies: verdict and string leaves must coincide).
+   * documents with values: `vnode`; `erase_v` forgets the values; the tree is inferred from
+     the erased documents (`run_dom (map (map erase_v) vdocs) = Some e`).
+   * hypotheses: those of C01 (documents non-empty, well-formed `wf_vnode` = attribute names of
+     an element pairwise distinct, common root name, `clash_free_tree e`, `names_plain e`) plus
+     `data_oriented` (hereditarily: an element that has a child element has no non-blank
+     character data; consequently every element has at most one run of character data,
+     C02_data_oriented_runs).  Needed: C02_needs_data_oriented.
+   * C02_accepts: accepted, for deny = false and deny = true (deny_unknown_fields).
+   * C02_holds_all: every attribute value and every trimmed character-data run of the document
+     (`doc_values`) is among the string leaves of the value.
+   * C02_accepts_tree: the same for any document whose root the tree admits (`TreeAdmits`, C01).
+   * C02_core: the underlying theorem for any flavour / options whose key spaces are apart
+     (`KeysOK`); `held keep st x v` (read by C02_held_reading) is what the value is shown to hold.
+   Only statements; every proof is `exact <lemma of Proofs/DeserProofs.v>`. *)
+From Coq Require Import String.
+From XSG.Model Require Import Strings Convert Necessity Element Dom Spec Render Deser.
+From XSG.Proofs Require Import ElementProofs ReprDefs AdmitProofs DeserProofs.
+From XSG.Corr Require Import Common Oracles.
+Local Open Scope list_scope.
+
+(* ---------- the hypotheses on documents, read ---------- *)
+Theorem C02_wf_vnode_reading : forall n ef attrs ks,
+  wf_vnode (VElem n ef attrs ks) <-> NoDup (map fst attrs) /\ Forall wf_vnode ks.
+Proof. exact wf_vnode_elem. Qed.
+
+Theorem C02_wf_vnode_erase : forall v, wf_vnode v -> wf_node (erase_v v).
+Proof. exact wf_vnode_erase. Qed.
+
+(* `eff ef ks`: the content of the empty form <n/> is empty *)
+Theorem C02_data_oriented_reading : forall n ef attrs ks,
+  data_oriented (VElem n ef attrs ks) <->
+  (velems (eff ef ks) <> [] -> text_runs (eff ef ks) = [])
+  /\ Forall data_oriented (eff ef ks).
+Proof. exact data_oriented_elem. Qed.
+
+(* an element without child elements has at most one run of character data ... *)
+Theorem C02_text_runs_single : forall ks, velems ks = [] -> (List.length (text_runs ks) <= 1)%nat.
+Proof. exact text_runs_single. Qed.
+
+(* ... hence every element of a data-oriented document *)
+Theorem C02_data_oriented_runs : forall ks,
+  (velems ks <> [] -> text_runs ks = []) -> (List.length (text_runs ks) <= 1)%nat.
+Proof. exact data_oriented_runs. Qed.
+
+(* ---------- the theorems ---------- *)
+Theorem C02_accepts : forall vdocs m e,
+  vdocs <> [] -> Forall (Forall wf_vnode) vdocs ->
+  Forall (fun p => elem_names (map erase_v p) = [m]) vdocs ->
+  run_dom (map (map erase_v) vdocs) = Some e ->
+  clash_free_tree e = true -> names_plain e = true ->
+  Forall (Forall data_oriented) vdocs ->
+  forall deny vd, In vd vdocs ->
+    exists v, de_doc qx_flavour (render_abs quick_xml_de e) deny vd = Some v.
+Proof. exact qx_accepts. Qed.
+
+Theorem C02_holds_all : forall vdocs m e,
+  vdocs <> [] -> Forall (Forall wf_vnode) vdocs ->
+  Forall (fun p => elem_names (map erase_v p) = [m]) vdocs ->
+  run_dom (map (map erase_v) vdocs) = Some e ->
+  clash_free_tree e = true -> names_plain e = true ->
+  Forall (Forall data_oriented) vdocs ->
+  forall deny vd v, In vd vdocs ->
+    de_doc qx_flavour (render_abs quick_xml_de e) deny vd = Some v ->
+    incl (flat_map doc_values vd) (leaves v).
+Proof. exact qx_holds_all. Qed.
+
+Theorem C02_accepts_holds : forall vdocs m e,
+  vdocs <> [] -> Forall (Forall wf_vnode) vdocs ->
+  Forall (fun p => elem_names (map erase_v p) = [m]) vdocs ->
+  run_dom (map (map erase_v) vdocs) = Some e ->
+  clash_free_tree e = true -> names_plain e = true ->
+  Forall (Forall data_oriented) vdocs ->
+  forall deny vd, In vd vdocs ->
+    exists v, de_doc qx_flavour (render_abs quick_xml_de e) deny vd = Some v
+              /\ incl (flat_map doc_values vd) (leaves v).
+Proof. exact qx_accepts_holds. Qed.
+
+(* tree level: any document whose root element the tree admits *)
+Theorem C02_accepts_tree : forall e deny vd nd,
+  clash_free_tree e = true -> names_plain e = true ->
+  vdoc_root vd = Some nd -> TreeAdmits e (erase_v nd) -> wf_vnode nd -> data_oriented nd ->
+  exists v, de_doc qx_flavour (render_abs quick_xml_de e) deny vd = Some v
+            /\ incl (doc_values nd) (leaves v).
+Proof. exact qx_accepts_tree. Qed.
+
+(* ---------- the core, for both flavours ---------- *)
+(* what the value is shown to hold: the attribute values, the character data of elements typed
+   String (`st`) and — when `keep` — of struct-typed elements too, hereditarily *)
+Theorem C02_held_reading : forall keep st x n ef attrs kids0,
+  held keep st x (VElem n ef attrs kids0) =
+  map snd attrs
+  ++ (if keep || st then text_runs (eff ef kids0) else [])
+  ++ flat_map (fun k => match k with
+                        | VElem m _ _ _ =>
+                            match get_child (echildren x) m with
+                            | Some c => held keep (contains_only_text (snd c)) (snd c) k
+                            | None => []
+                            end
+                        | _ => []
+                        end) (eff ef kids0).
+Proof. exact held_elem. Qed.
+
+Theorem C02_held_all : forall v x st, TreeAdmits x (erase_v v) -> incl (doc_values v) (held true st x v).
+Proof. exact held_all. Qed.
+
+(* the three key spaces of the struct of a node are apart, hereditarily *)
+Theorem C02_KeysOK_reading : forall fl o x, KeysOK fl o x ->
+  ((forall a c, In a (eattrs x) -> In c (echildren x) ->
+                attr_bound o (snd a) <> remove_namespace (cname c))
+   /\ (forall a, In a (eattrs x) ->
+                 attr_bound o (snd a) <> fl_text_key fl /\ attr_bound o (snd a) <> text_identifier o)
+   /\ (forall c, In c (echildren x) ->
+                 remove_namespace (cname c) <> fl_text_key fl
+                 /\ remove_namespace (cname c) <> text_identifier o))
+  /\ Forall (fun c => KeysOK fl o (snd c)) (echildren x).
+Proof. exact KeysOK_inv. Qed.
+
+Theorem C02_keys_ok_quick_xml : forall x, names_plain x = true -> KeysOK qx_flavour quick_xml_de x.
+Proof. exact keys_ok_qx. Qed.
+
+Theorem C02_core : forall fl o deny keep e vd nd,
+  attribute_prefix o = fl_attr_prefix fl ->
+  (deny = true -> text_identifier o = fl_text_key fl) ->
+  (keep = true -> text_identifier o = fl_text_key fl) ->
+  clash_free_tree e = true -> KeysOK fl o e ->
+  vdoc_root vd = Some nd -> TreeAdmits e (erase_v nd) ->
+  wf_vnode nd -> data_oriented nd -> (fl_overlapped fl = true \/ adjacent_doc nd) ->
+  exists v, de_doc fl (render_abs o e) deny vd = Some v /\ incl (held keep false e nd) (leaves v).
+Proof. exact de_doc_tree. Qed.
+
+(* ---------- examples ---------- *)
+(* vx_doc1 = <?..?><r id="1"> <a>  hello world </a> <b k="v"><c/></b><b k="w"/></r>
+   vx_doc2 = <r id="2" lang="en"><b k="x"><c/><!--..--><c/></b><d> x <![CDATA[ raw ]]> y </d></r><!--..-->
+   (attributes, a repeated child, optional children, text-only children with surrounding
+   whitespace and CDATA) *)
+Example C02_example_hypotheses :
+  vx_docs <> [] /\ Forall (Forall wf_vnode) vx_docs
+  /\ Forall (fun p => elem_names (map erase_v p) = [s "r"]) vx_docs
+  /\ Forall (Forall data_oriented) vx_docs
+  /\ exists e, run_dom (map (map erase_v) vx_docs) = Some e
+               /\ clash_free_tree e = true /\ names_plain e = true.
+Proof. exact vx_hypotheses. Qed.
+
+Example C02_example_theorem_applies : forall e, run_dom (map (map erase_v) vx_docs) = Some e ->
+  forall deny vd, In vd vx_docs ->
+    exists v, de_doc qx_flavour (render_abs quick_xml_de e) deny vd = Some v
+              /\ incl (flat_map doc_values vd) (leaves v).
+Proof. exact vx_theorem_applies. Qed.
+
+Example C02_example_values_deny :
+  match run_dom (map (map erase_v) vx_docs) with
+  | Some e => map (de_doc qx_flavour (render_abs quick_xml_de e) true) vx_docs
+  | None => []
+  end =
+  [Some (FStruct [(s "id", FStr (s "1")); (s "lang", FNone); (s "text", FNone);
+                  (s "a", FSome (FStr (s "hello world")));
+                  (s "b", FSeq [FStruct [(s "k", FStr (s "v")); (s "c", FSome (FSeq [FStruct []]))];
+                                FStruct [(s "k", FStr (s "w")); (s "c", FNone)]]);
+                  (s "d", FNone)]);
+   Some (FStruct [(s "id", FStr (s "2")); (s "lang", FSome (FStr (s "en"))); (s "text", FNone);
+                  (s "a", FNone);
+                  (s "b", FSeq [FStruct [(s "k", FStr (s "x"));
+                                         (s "c", FSome (FSeq [FStruct []; FStruct []]))]]);
+                  (s "d", FSome (FStr (s "x  raw  y")))])].
+Proof. exact vx_values_deny. Qed.
+
+Example C02_example_doc_values :
+  map (flat_map doc_values) vx_docs
+  = [[s "1"; s "hello world"; s "v"; s "w"]; [s "2"; s "en"; s "x"; s "x  raw  y"]].
+Proof. exact vx_doc_values. Qed.
+
+(* vx_damaged = <r id="1" zz="q"><b k="w"/></r>: one attribute no document had *)
+Example C02_example_damaged_rejected :
+  match run_dom (map (map erase_v) vx_docs) with
+  | Some e => (de_doc qx_flavour (render_abs quick_xml_de e) true vx_damaged,
+               option_map leaves (de_doc qx_flavour (render_abs quick_xml_de e) false vx_damaged))
+  | None => (None, None)
+  end = (None, Some [s "1"; s "w"]).
+Proof. exact vx_damaged_rejected. Qed.
+
+(* vx_damaged2 = <r><b k="w"/></r>: the mandatory attribute `id` is missing *)
+Example C02_example_damaged2_rejected :
+  match run_dom (map (map erase_v) vx_docs) with
+  | Some e => map (fun deny => de_doc qx_flavour (render_abs quick_xml_de e) deny vx_damaged2) [true; false]
+  | None => []
+  end = [None; None].
+Proof. exact vx_damaged2_rejected. Qed.
+
+(* vx_mixed = <r>t1<a/>t2</r>: clash_free true, plain true, data_oriented false, rejected *)
+Example C02_needs_data_oriented :
+  match run_dom (map (map erase_v) [vx_mixed]) with
+  | Some e => (clash_free_tree e, names_plain e, forallb data_oriented_b vx_mixed,
+               de_doc qx_flavour (render_abs quick_xml_de e) false vx_mixed)
+  | None => (false, false, true, None)
+  end = (true, true, false, None).
+Proof. exact vx_needs_data_oriented. Qed.
+
+Print Assumptions C02_wf_vnode_reading.
+Print Assumptions C02_wf_vnode_erase.
+Print Assumptions C02_data_oriented_reading.
+Print Assumptions C02_text_runs_single.
+Print Assumptions C02_data_oriented_runs.
+Print Assumptions C02_accepts.
+Print Assumptions C02_holds_all.
+Print Assumptions C02_accepts_holds.
+Print Assumptions C02_accepts_tree.
+Print Assumptions C02_held_reading.
+Print Assumptions C02_held_all.
+Print Assumptions C02_KeysOK_reading.
+Print Assumptions C02_keys_ok_quick_xml.
+Print Assumptions C02_core.
+Print Assumptions C02_example_hypotheses.
+Print Assumptions C02_example_theorem_applies.
+Print Assumptions C02_example_values_deny.
+Print Assumptions C02_example_doc_values.
+Print Assumptions C02_example_damaged_rejected.
+Print Assumptions C02_example_damaged2_rejected.
+Print Assumptions C02_needs_data_oriented.
